@@ -102,11 +102,37 @@ def compare(ctx, job, m, o, tag):
     return False
 
 
+def compare_equal_values(ctx, job, m, o, tag):
+    """Family with ==-equal but different values (1 / 1.0 / True).  Judged against the denotation; the one way in which
+    the unchanged engine deviates (a consumer keeps the result it computed from the first of two equal values) has its
+    own witness class -- anything else is reported under the ordinary classes."""
+    den = m["aux"]["den"] if isinstance(m["aux"]["den"], dict) else {}
+    wit = {"job": job, "tag": tag, "expected": {"den": den}, "observed": o, "model": m["values"]}
+    if "rejected" in o or o["status"] != "completed":
+        return ctx.violation("not-completed", wit, f"equal-values program did not complete: {o}")
+    if o["values"] == den:
+        return False
+    bad = sorted(k for k in set(den) | set(o["values"]) if den.get(k) != o["values"].get(k))
+    if o["values"] == m["values"] and bad == ["c"]:
+        return ctx.violation("stale-result-after-equal-valued-rewrite", wit,
+                             f"c = {o['values'].get('c')} was computed from the first of two ==-equal values; in dependency order it is {den.get('c')}")
+    return ctx.violation("values", wit, f"values {o['values']} != denotation {den} (differing: {bad})")
+
+
 def evaluate(ctx, pairs):
     jobs = [j for j, _ in pairs]
     tags = {j["id"]: t for j, t in pairs}
-    res, stats = predict.model_predict(jobs, prop=PID)
+    # the "equal-values" family: the engine model is faithful to the code (a rewrite with an ==-equal value is no
+    # change), which contradicts the denotation there (open known finding): the L2-vs-L1 comparison is skipped for this
+    # family, the real run is still judged against the denotation
+    eq = [j for j in jobs if tags[j["id"]].startswith("equal-values/")]
+    rest = [j for j in jobs if not tags[j["id"]].startswith("equal-values/")]
+    res, stats = predict.model_predict(rest, prop=PID)
     ctx.add_tlc(stats)
+    if eq:
+        res2, stats2 = predict.model_predict(eq, prop=PID, allow_l1fail=True)
+        ctx.add_tlc(stats2)
+        res.update(res2)
     for j in jobs:
         o, _, _ = predict.try_real(j)
         ctx.count()
@@ -114,6 +140,9 @@ def evaluate(ctx, pairs):
         m = res[j["id"]]
         if len(j["prog"]["nodes"]) >= 2:
             ctx.distinct(IR.struct_hash([j["prog"], j["provided"], j["select"]]))
+        if tags[j["id"]].startswith("equal-values/"):
+            compare_equal_values(ctx, j, m, o, tags[j["id"]])
+            continue
         compare(ctx, j, m, o, tags[j["id"]])
     if jobs:
         ctx.sample({"job": jobs[len(jobs) // 2], "denotation": res[jobs[len(jobs) // 2]["id"]]["aux"]})
@@ -182,6 +211,16 @@ def run(tier, seed):
         for prog, provided, a in gen.dag_jobs_precedence(shape):
             prec.append((gen.job(0, prog, provided, mode=("sync", "async")[len(prec) % 2]), f"precedence/{tag}/{a}"))
     pairs += prec if thorough else prec[:: 3]
+    # values that are EQUAL (==) but not the same value (1 / 1.0 / True): a node that starts early on its signature
+    # default 1 and re-runs on the upstream 1.0 rewrites its output with an equal value
+    for uval, dval in (("1.0", "1"), ("True", "1"), ("1", "1.0"), ("0.0", "0")):
+        for order in (0, 1):
+            U = IR.func("U", ["x"], ["a"], fn="id")
+            N = IR.func("N", ["a"], ["b"], fn="id", defaults=["a"], dvals=[["a", dval]])
+            D = IR.func("D", ["b"], ["c"])
+            nodes = [U, N, D] if order == 0 else [D, N, U]
+            for mode in ("sync", "async"):
+                pairs.append((gen.job(0, IR.prog("top", nodes), [["x", uval]], mode=mode), f"equal-values/{uval}-over-{dval}/o{order}"))
     for i, (j, _) in enumerate(pairs):
         j["id"] = i + 1
     pairs += list(jobs_random(rng, 3000 if thorough else 400, len(pairs)))
